@@ -33,11 +33,15 @@ Lemma nalloc_spec s : nwf s ->
   nwf s1 /\ x = id_at s 0 /\ user s1 = user s /\ init_temp s1 = init_temp s /\
   (forall j, id_at s1 j = id_at s (j + 1)).
 Proof.
-  intros (Hu & Hit & Hmax & Hmask). unfold nalloc, id_at, window, wrap_int, nwf in *. simpl.
+  intros (Hu & Hit & Hmax & Hmask).
+  assert (Htm : temp_max = 67108863) by reflexivity.
+  assert (Hp : 2 ^ 26 = 67108864) by reflexivity.
+  unfold nalloc. cbv beta iota zeta. unfold id_at, window, wrap_int, nwf. cbn [user init_temp temp mask].
   assert (HW : 0 < temp_max - init_temp s + 1) by lia.
-  pose proof (Z.mod_pos_bound (temp s + 1 - init_temp s) (temp_max - init_temp s + 1) HW).
-  split; [repeat split; auto; try lia|]. split; [|split; [auto|split; [auto|]]].
-  - rewrite Hmask. rewrite lor_mask by (unfold temp_max in *; lia).
+  pose proof (Z.mod_pos_bound (temp s + 1 - init_temp s) (temp_max - init_temp s + 1) HW) as Hb.
+  split; [split; [auto|split; [lia|split; [lia|auto]]]|].
+  split; [|split; [auto|split; [auto|]]].
+  - rewrite Hmask. rewrite lor_mask by lia.
     rewrite Z.add_0_r. rewrite Z.mod_small by lia. lia.
   - intros j. f_equal. f_equal.
     replace ((temp s + 1 - init_temp s) mod (temp_max - init_temp s + 1) + init_temp s - init_temp s + j)
@@ -49,14 +53,17 @@ Lemma nalloc_many_spec k : forall s, nwf s ->
   let '(s', xs) := nalloc_many s k in
   nwf s' /\ length xs = k /\ forall j, (j < k)%nat -> nth j xs 0 = id_at s (Z.of_nat j).
 Proof.
-  induction k as [|k IH]; intros s Hs; simpl.
-  - split; [auto|]. split; [auto|]. intros; lia.
-  - pose proof (nalloc_spec s Hs) as H1. destruct (nalloc s) as [s1 x].
+  induction k as [|k IH]; intros s Hs.
+  - change (nalloc_many s 0) with (s, @nil Z). cbv beta iota zeta.
+    split; [auto|]. split; [auto|]. intros; lia.
+  - change (nalloc_many s (S k)) with
+      (let '(s1, x) := nalloc s in let '(s2, xs) := nalloc_many s1 k in (s2, x :: xs)).
+    pose proof (nalloc_spec s Hs) as H1. destruct (nalloc s) as [s1 x].
     destruct H1 as (Hs1 & Hx & _ & _ & Hshift).
     pose proof (IH s1 Hs1) as H2. destruct (nalloc_many s1 k) as [s2 xs].
-    destruct H2 as (Hs2 & Hlen & Hnth).
-    split; [auto|]. split; [simpl; lia|].
-    intros [|j] Hj; simpl; auto.
+    destruct H2 as (Hs2 & Hlen & Hnth). cbv beta iota zeta.
+    split; [auto|]. split; [cbn [length]; lia|].
+    intros [|j] Hj; cbn [nth]; auto.
     rewrite Hnth by lia. rewrite Hshift. f_equal. lia.
 Qed.
 
@@ -67,7 +74,9 @@ Proof.
   intros (Hu & Hit & Hmax & Hmask). unfold id_at, window.
   assert (HW : 0 < temp_max - init_temp s + 1) by lia.
   pose proof (Z.mod_pos_bound (temp s - init_temp s + j) (temp_max - init_temp s + 1) HW).
-  rewrite !Z.shiftl_mul_pow2 by lia. unfold temp_max in *. lia.
+  assert (Htm : temp_max = 67108863) by reflexivity.
+  assert (Hp : 2 ^ 26 = 67108864) by reflexivity.
+  rewrite !Z.shiftl_mul_pow2 by lia. rewrite Hp. nia.
 Qed.
 
 Lemma id_at_distinct s i j : nwf s -> 0 <= i < j -> j - i < window (init_temp s) -> id_at s i <> id_at s j.
@@ -80,4 +89,48 @@ Proof.
   assert (j - i = W * ((r + j) / W - (r + i) / W)) by lia.
   assert (0 < (r + j) / W - (r + i) / W) by nia.
   nia.
+Qed.
+
+Lemma ninit_nwf u it s : 0 <= u -> 0 <= it <= temp_max -> ninit u it = Some s ->
+  nwf s /\ user s = u /\ init_temp s = it /\ temp s = it.
+Proof.
+  intros Hu Hit. unfold ninit. destruct (Z.ltb_spec 31 u); [discriminate|].
+  intros E. inversion E; subst; clear E. unfold nwf, nreset. cbn [user init_temp temp mask].
+  repeat split; auto; lia.
+Qed.
+
+Lemma nreset_nwf s : 0 <= user s <= 31 -> 0 <= init_temp s <= temp_max -> nwf (nreset s).
+Proof. intros. unfold nwf, nreset. cbn [user init_temp temp mask]. repeat split; auto; lia. Qed.
+
+Lemma nodeid_window_distinct_proof s k s' ids i j : nwf s -> nalloc_many s k = (s', ids) ->
+  (i < j < k)%nat -> Z.of_nat j - Z.of_nat i < temp_max - init_temp s + 1 ->
+  nth i ids 0 <> nth j ids 0.
+Proof.
+  intros Hs E Hij Hw. pose proof (nalloc_many_spec k s Hs) as H. rewrite E in H.
+  destruct H as (_ & _ & Hnth). rewrite !Hnth by lia.
+  apply id_at_distinct; auto; unfold window; lia.
+Qed.
+
+Lemma nodeid_in_client_range_proof s k s' ids i : nwf s -> nalloc_many s k = (s', ids) -> (i < k)%nat ->
+  Z.shiftl (user s) 26 <= nth i ids 0 < Z.shiftl (user s + 1) 26 /\
+  nth i ids 0 = Z.land (nth i ids 0) temp_max + Z.shiftl (user s) 26 /\
+  init_temp s <= nth i ids 0 - Z.shiftl (user s) 26 <= temp_max /\
+  nwf s'.
+Proof.
+  intros Hs E Hi. pose proof (nalloc_many_spec k s Hs) as H. rewrite E in H.
+  destruct H as (Hs' & _ & Hnth). rewrite !Hnth by lia.
+  pose proof (id_at_range s (Z.of_nat i) Hs) as (H1 & H2 & H3).
+  destruct Hs as (Hu & Hit & Hmax & Hmask).
+  assert (Htm : temp_max = 67108863) by reflexivity.
+  assert (Hp : 2 ^ 26 = 67108864) by reflexivity.
+  split; [auto|]. rewrite Z.shiftl_mul_pow2 in * by lia.
+  assert (HW : 0 < temp_max - init_temp s + 1) by lia.
+  pose proof (Z.mod_pos_bound (temp s - init_temp s + Z.of_nat i) (temp_max - init_temp s + 1) HW) as Hb.
+  set (t := init_temp s + (temp s - init_temp s + Z.of_nat i) mod window (init_temp s)).
+  assert (Ht : 0 <= t < 2 ^ 26) by (unfold t, window; lia).
+  assert (Eid : id_at s (Z.of_nat i) = t + user s * 2 ^ 26) by reflexivity.
+  split; [|split; [unfold t, window in *; lia|auto]].
+  rewrite Eid. f_equal.
+  change temp_max with (Z.ones 26). rewrite Z.land_ones by lia.
+  rewrite Z.mod_add by lia. symmetry. apply Z.mod_small. lia.
 Qed.
